@@ -234,7 +234,12 @@ def run_case(case):
             for n, v in it.env.items():
                 if mgrun.is_tensor(v) and n in ref.env and mgrun.is_tensor(ref.env[n]):
                     if v.data.flags.writeable != ref.env[n].data.flags.writeable:
-                        viol.append({"monitor": "locks", "mech": f"lock-state-differs:{tag}", "fault": tag, "pos": p, "target": t,
+                        from mygrad._utils import lock_management as _lm
+                        dbg = {"arr": id(v.data), "base": id(v.data.base) if v.data.base is not None else None,
+                               "counter": {str(k): c for k, c in _lm._array_counter.items()},
+                               "tracker": [str(k) for k in _lm._array_tracker],
+                               "waiting": {str(k): [str(q) for q in w] for k, w in _lm._views_waiting_for_unlock.items()}}
+                        viol.append({"monitor": "locks", "mech": f"lock-state-differs:{tag}", "fault": tag, "pos": p, "target": t, "debug": dbg,
                                      "msg": f"fault {tag}: {n}.data.flags.writeable={v.data.flags.writeable} vs fault-free {ref.env[n].data.flags.writeable}"})
                         break
             if len(viol) > 12:
